@@ -123,10 +123,13 @@ def expected(pm_i, target, var_i, explicit):
     return prepared(TEMPLATES[tmpl]) + "|" + repr(items)
 
 
+EXISTING = [None, "OLD CONTENT\n", ""]      # missing / has content / exists with zero bytes
+
+
 def fresh_fs(target, exists):
     fs = hx.FakeFS({ZDIR + "/" + k: v for k, v in TEMPLATES.items()})
-    if exists:
-        fs.files[norm(target)] = "OLD CONTENT\n"
+    if EXISTING[exists] is not None:
+        fs.files[norm(target)] = EXISTING[exists]
     FS[0] = fs
     del RENDERS[:]
     return fs
@@ -144,17 +147,25 @@ def call(pm_i, target, var_i, explicit, overwrite):
     tp.init_from_template(ZDIR, tpm, target, **kw)
 
 
+def pick3(i):
+    for k in (0, 1, 2):
+        if i == k:
+            return k
+    raise AssertionError(i)
+
+
 def user_files(fs):
     return {k: v for k, v in fs.files.items() if k.startswith(ZDIR + "/") and not k.endswith(".zot")}
 
 
-def init(pm_i: int, t_i: int, var_i: int, exists: bool, explicit: bool, overwrite: bool) -> bool:
+def init(pm_i: int, t_i: int, var_i: int, exists: int, explicit: bool, overwrite: bool) -> bool:
     """
-    pre: 0 <= pm_i < len(PATTERN_MAPS) and 0 <= t_i < len(TARGETS) and 0 <= var_i < len(VAR_MAPS)
+    pre: 0 <= pm_i < len(PATTERN_MAPS) and 0 <= t_i < len(TARGETS) and 0 <= var_i < len(VAR_MAPS) and 0 <= exists <= 2
     pre: PIN_PM < 0 or pm_i == PIN_PM
     post: _
     """
     target = TARGETS[t_i]
+    exists = pick3(exists)
     fs = fresh_fs(target, exists)
     before = user_files(fs)
     call(pm_i, target, var_i, explicit, overwrite)
@@ -185,7 +196,7 @@ def two_targets(first: int, second: int, exists2: bool) -> bool:
     t1, t2 = TARGETS[first], TARGETS[second]
     if norm(t1) == norm(t2):
         return True
-    fs = fresh_fs(t2, exists2)
+    fs = fresh_fs(t2, 1 if exists2 else 0)
     before = user_files(fs)
     call(4, t1, 0, False, False)
     call(4, t2, 0, False, False)
